@@ -11,13 +11,22 @@
   Model: `NsyncVerif.Model.Note` — acceptor of /repo/internal/note.c (+ the nsync_wait_n path of
   nsync_note_wait) at one-atomic-operation granularity; all theorems are about every reachable
   state, i.e. every forest, every number of threads, every interleaving, every clock.
-  "Notified" (`State.Notified`) = the flag is set or the expiry time is zero (a note created with
-  a zero deadline, or under an already notified parent, has `NOTIFIED_TIME == 0` with the flag 0).
+  The model follows note.c AFTER the repair of defect F5 (/verif/fixes/F5/note_fix.diff).
+  "Notified" (`State.Notified`) = the flag is set or the expiry time is zero (a zero deadline on the
+  creation-time path: `NOTIFIED_TIME == 0` with the flag 0; a note created under an already
+  notified parent now gets its flag set by `nsync_note_new`).
 
   STATUS
   * proved at full strength: `C08_flag_monotone`, `C08_monotone`, `C08_sound` (+ `C08_anc_ever`),
-    `C08_notify_post`, `C08_expiry_min_partial` (hypothesis `¬ bornNotified`), and the refutation
-    `C08_expiry_min_witness` of the unrestricted statement (known finding F5, two flavours).
+    `C08_notify_post`, and — since the repair of F5 — the expiry clause: `C08_expiry_min` (every
+    note returned by nsync_note_new, born notified or not), `C08_expiry_min_ret` (the value returned
+    by nsync_note_expiry), with `C08_creation_path` (what "the path from the note to the root"
+    is: the chain of CREATION-time parents — nsync_note_free re-parents the children of a freed note
+    under the grand-parent in the real forest, the deadlines that count are those of the notes that
+    were above the note when it was created), `Dl.minList_mem` / `Dl.minList_le` (it is the
+    minimum).  `C08_expiry_min_partial` is kept (now a corollary); `C08_expiry_min_full` is proved
+    (`C08_expiry_min_full_holds`).  What the code did before the repair is documented by
+    `C08_expiry_min_old_code_witness`.
   * `C08_complete`: the full statement `C08_complete_full` is REFUTED on the current code
     (`C08_complete_witness`, known defect F4, accepted trace from the unmodified library).
     `C08_complete_partial` proves it for the flags (every descendant of a notified note is notified
@@ -29,8 +38,12 @@
   * `C08_unaffected`: proved w.r.t. the creation-time path (`ancEver`):
     `C08_unaffected_partial`; the statement w.r.t. the current tree is `C08_unaffected_full`
     (believed true, not proved: it needs the converse of `InvT`, which rests on the locks).
+    Both statements have a second disjunct since the repair of F5: `nsync_note_new` itself sets the
+    flag of the note it is creating (not yet returned to anybody) when the intended parent is
+    notified — the repaired code has this additional, harmless way of setting a flag.
 -/
 import NsyncVerif.Proofs.NoteInvJ
+import NsyncVerif.Proofs.NoteInvP
 import NsyncVerif.Proofs.NoteWitness
 
 set_option linter.unusedSimpArgs false
@@ -121,54 +134,163 @@ theorem C08_notify_post {s s' : State} {t : Tid} (hr : Reachable s)
 
 /-! ### nsync_note_expiry -/
 
-/-- The statement at full strength: the value returned by `nsync_note_expiry (n)` is the minimum
-    of the deadlines passed to `nsync_note_new` on the path from `n` to the root at creation. -/
-def C08_expiry_min_full : Prop :=
-  ∀ (s s' : State) (t : Tid) (v : Dl), Reachable s → step s (.ret t (.expiry v)) = .ok s' →
-    ∃ n, s.pc t = .retExpiry n ∧ v = s.pathMin n
+/-- "The path from the note to the root": the ghost list `ancEver n` is `n` followed by the
+    path of the `parent` that was passed to the `nsync_note_new` call that created `n` (ghost
+    `cparent`, never changed afterwards — in particular not by the re-parenting that
+    `nsync_note_free` of an ancestor performs in the real forest).  The statement of the expiry
+    clause is about these CREATION-time ancestors. -/
+theorem C08_creation_path {s : State} (hr : Reachable s) (n : NoteId)
+    (hn : (s.notes n).allocated = true) :
+    s.ancEver n = n :: (match s.cparent n with
+      | some p => s.ancEver p
+      | none => []) := by
+  rw [hr.invP.path n hn]
+  cases s.cparent n <;> rfl
 
-/-- C08 (proved part): … unless `nsync_note_new` found the note, or its parent, already notified
-    (`bornNotified`, known finding F5). -/
-theorem C08_expiry_min_partial {s s' : State} {t : Tid} {v : Dl} (hr : Reachable s)
+/-- The ghosts are written by `nsync_note_new` itself: the step that allocates note `k` inside
+    `nsync_note_new (par, dl)` records `dl` and `par`, and they never change (`Stable.ghost`,
+    `step_cparent`). -/
+theorem C08_creation_ghosts {s s' : State} {a : Tid} {k : NoteId} {par : Option NoteId} {dl : Dl}
+    (hpc : s.pc a = .newMalloc par dl) (hs : step s (.malloc a (some k)) = .ok s') :
+    s'.ownDl k = dl ∧ s'.cparent k = par := by
+  simp only [step, hpc, need_ok] at hs
+  obtain ⟨_, hs⟩ := hs
+  cases hs
+  simp
+
+/-- C08, expiry clause, at full strength: in every reachable state, for every note `n` that
+    `nsync_note_new` has returned (born notified or not), `n->expiry_time` — the value
+    `nsync_note_expiry (n)` returns — is the minimum of the deadlines passed to `nsync_note_new`
+    for `n` and for the notes on its creation-time path to the root. -/
+theorem C08_expiry_min {s : State} (hr : Reachable s) (n : NoteId) (hp : s.published n = true) :
+    (s.notes n).expiry = Dl.minList (s.pathDeadlines n) := by
+  obtain ⟨hA, _, _, hX⟩ := hr.inv
+  rw [hX.min n hp, hr.invP.min n (hA.published n hp)]
+
+/-- … as seen at the API: the value `v` that a call of `nsync_note_expiry (n)` returns. -/
+theorem C08_expiry_min_ret {s s' : State} {t : Tid} {v : Dl} (hr : Reachable s)
     (hs : step s (.ret t (.expiry v)) = .ok s') :
-    ∃ n, s.pc t = .retExpiry n ∧ (s.bornNotified n = false → v = s.pathMin n) := by
-  have hX := hr.inv.2.2.2
-  have hc := hX.claim t
+    ∃ n, s.pc t = .retExpiry n ∧ v = Dl.minList (s.pathDeadlines n) := by
+  have hc := hr.inv.2.2.2.claim t
   cases hpc : s.pc t with
   | retExpiry n =>
     rw [hpc] at hc
     simp only [step, stepRet, hpc, need_ok] at hs
-    exact ⟨n, rfl, fun hb => hs.1 ▸ hX.min n hc hb⟩
+    exact ⟨n, rfl, hs.1 ▸ C08_expiry_min hr n hc⟩
   | _ => simp [step, stepRet, hpc] at hs
 
-theorem f5b_prefix_ok : (run init (Traces.f5bTrace.take 45)).toOption.isSome = true := by decide
+/-- The statement in terms of the ghost `pathMin` (computed incrementally by the model at
+    creation; `InvP.min` ties it to `Dl.minList`): the value returned by `nsync_note_expiry (n)` is
+    the minimum of the deadlines passed to `nsync_note_new` on the path from `n` to the root at
+    creation. -/
+def C08_expiry_min_full : Prop :=
+  ∀ (s s' : State) (t : Tid) (v : Dl), Reachable s → step s (.ret t (.expiry v)) = .ok s' →
+    ∃ n, s.pc t = .retExpiry n ∧ v = s.pathMin n
+
+/-- … holds since the repair of F5 (it was refuted on the old code). -/
+theorem C08_expiry_min_full_holds : C08_expiry_min_full := by
+  intro s s' t v hr hs
+  obtain ⟨n, hpc, hv⟩ := C08_expiry_min_ret hr hs
+  have hX := hr.inv.2.2.2
+  have hc := hX.claim t
+  rw [hpc] at hc
+  exact ⟨n, hpc, by rw [hv, ← hr.invP.min n (hr.inv.1.published n hc)]⟩
+
+/-- The former partial statement (hypothesis `¬ bornNotified`), now a corollary. -/
+theorem C08_expiry_min_partial {s s' : State} {t : Tid} {v : Dl} (hr : Reachable s)
+    (hs : step s (.ret t (.expiry v)) = .ok s') :
+    ∃ n, s.pc t = .retExpiry n ∧ (s.bornNotified n = false → v = s.pathMin n) := by
+  obtain ⟨n, hpc, hv⟩ := C08_expiry_min_full_holds s s' t v hr hs
+  exact ⟨n, hpc, fun _ => hv⟩
+
+theorem f5b_prefix_ok : (run init (Traces.f5bTrace.take 46)).toOption.isSome = true := by decide
 theorem f5a_prefix_ok : (run init (Traces.f5aTrace.take 82)).toOption.isSome = true := by decide
 
-/-- Known finding F5 (b): root notified explicitly, child created under it with no deadline:
-    `nsync_note_expiry (child)` returns (0,0) although no deadline was ever given. -/
-theorem C08_expiry_min_witness : ¬ C08_expiry_min_full := by
-  intro h
-  have hstep : (step (stateAfter _ f5b_prefix_ok) (.ret 0 (.expiry (some 0)))).toOption.isSome
-      = true := by decide
-  obtain ⟨s', hs'⟩ := step_of_isSome hstep
-  obtain ⟨n, hpc, hv⟩ := h _ s' 0 (some 0) (reachable_stateAfter _ f5b_prefix_ok) hs'
-  have hpc' : (stateAfter _ f5b_prefix_ok).pc 0 = .retExpiry 1 := by decide
-  rw [hpc'] at hpc
-  cases hpc
-  have : (stateAfter _ f5b_prefix_ok).pathMin 1 = none := by decide
-  rw [this] at hv
-  cases hv
-
-/-- Known finding F5 (a): the parent's deadline (1000 s + 1000 ns) is smaller than the child's own
-    (1000 s + 2000 ns), both already in the past when the child is created: the child reports its
-    own deadline. -/
+/-- Non-vacuity, former F5 (b) (trace recorded from the repaired library): the root is notified
+    explicitly, a child with deadline 1100 s is created under it: it is born notified (flag set by
+    nsync_note_new, never linked), and `nsync_note_expiry (child)` returns 1100 s — not (0,0). -/
 example : ∃ s s' : State, Reachable s ∧
-    step s (.ret 0 (.expiry (some 1000000002000))) = .ok s' ∧ s.pc 0 = .retExpiry 2 ∧
-    s.pathMin 2 = some 1000000001000 := by
-  have hstep : (step (stateAfter _ f5a_prefix_ok)
-      (.ret 0 (.expiry (some 1000000002000)))).toOption.isSome = true := by decide
+    step s (.ret 0 (.expiry (some 1100000000000))) = .ok s' ∧ s.pc 0 = .retExpiry 1 ∧
+    s.bornNotified 1 = true ∧ (s.notes 1).notified = true ∧ (s.notes 1).parent = none ∧
+    s.pathDeadlines 1 = [some 1100000000000, none] := by
+  have hstep : (step (stateAfter _ f5b_prefix_ok)
+      (.ret 0 (.expiry (some 1100000000000)))).toOption.isSome = true := by decide
   obtain ⟨s', hs'⟩ := step_of_isSome hstep
-  exact ⟨_, s', reachable_stateAfter _ f5a_prefix_ok, hs', by decide, by decide⟩
+  exact ⟨_, s', reachable_stateAfter _ f5b_prefix_ok, hs', by decide, by decide, by decide,
+    by decide, by decide⟩
+
+/-- Non-vacuity, former F5 (a) (trace recorded from the repaired library): the parent's deadline
+    (1000 s + 1000 ns) is smaller than the child's own (1000 s + 2000 ns), both already in the past
+    when the child is created: the child is born notified and reports the parent's deadline. -/
+example : ∃ s s' : State, Reachable s ∧
+    step s (.ret 0 (.expiry (some 1000000001000))) = .ok s' ∧ s.pc 0 = .retExpiry 2 ∧
+    s.bornNotified 2 = true ∧ (s.notes 2).parent = none ∧
+    s.pathDeadlines 2 = [some 1000000002000, some 1000000001000] := by
+  have hstep : (step (stateAfter _ f5a_prefix_ok)
+      (.ret 0 (.expiry (some 1000000001000)))).toOption.isSome = true := by decide
+  obtain ⟨s', hs'⟩ := step_of_isSome hstep
+  exact ⟨_, s', reachable_stateAfter _ f5a_prefix_ok, hs', by decide, by decide, by decide,
+    by decide⟩
+
+/-! #### What the code did before the repair (defect F5) -/
+
+namespace OldF5
+
+/-- A note as far as `nsync_note_new` reads it: the `notified` flag and `expiry_time`. -/
+structure N where
+  notified : Bool
+  expiry : Dl
+  deriving DecidableEq
+
+/-- `NOTIFIED_TIME` -/
+def ntime (r : N) : Dl := if r.notified then some 0 else r.expiry
+
+/-- The new note after `set_expiry_time (n, dl); nsync_note_is_notified (n)` at time `now`: the
+    flag is set (by `notify`) iff the deadline is non-zero and has passed; the second component
+    is the result of `nsync_note_is_notified`. -/
+def selfCheck (now : Nat) (dl : Dl) : N × Bool :=
+  (⟨decide dl.pos && dl.leNow now, dl⟩, !decide dl.pos || dl.leNow now)
+
+/-- `nsync_note_new (parent, dl)` at time `now` as it was BEFORE the repair (note.c:176-190 of the
+    old tree), sequentially: the parent is consulted only if the new note is not notified, and
+    what is taken from it is `NOTIFIED_TIME (parent)`, which is zero for a notified parent. -/
+def noteNewOld (now : Nat) (parent : Option N) (dl : Dl) : N :=
+  let (n, notified) := selfCheck now dl
+  match notified, parent with
+  | false, some p => if Dl.lt (ntime p) dl then { n with expiry := ntime p } else n
+  | _, _ => n
+
+/-- … and after the repair: the minimum with `parent->expiry_time` is always taken, and a note
+    created under a notified parent gets the flag. -/
+def noteNewFixed (now : Nat) (parent : Option N) (dl : Dl) : N :=
+  let (n, notified) := selfCheck now dl
+  match parent with
+  | none => n
+  | some p =>
+    let n1 : N := { n with expiry := Dl.min dl p.expiry }
+    if !notified && !decide (ntime p).pos then { n1 with notified := true } else n1
+
+end OldF5
+
+/-- Defect F5 as it was (the scenario of /verif/corpus/C08/f5_expiry_born_notified.txt, clock at
+    1000 s): (a) a root with deadline 995 s and a child with deadline 997 s, both in the past: the
+    old code gave the child the expiry time 997 s (the minimum is 995 s); (b) a root without
+    deadline, notified explicitly, and a child with deadline 1100 s: the old code gave the child the
+    expiry time (0,0) (the minimum is 1100 s).  The repaired function yields the minimum in both
+    cases, and the child is notified in all four. -/
+theorem C08_expiry_min_old_code_witness :
+    let now := 1000000000000
+    let rootA := OldF5.noteNewOld now none (some 995000000000)
+    let rootB : OldF5.N := ⟨true, none⟩
+    (OldF5.noteNewOld now (some rootA) (some 997000000000)).expiry = some 997000000000 ∧
+    (OldF5.noteNewOld now (some rootB) (some 1100000000000)).expiry = some 0 ∧
+    (OldF5.noteNewFixed now (some rootA) (some 997000000000)).expiry = some 995000000000 ∧
+    (OldF5.noteNewFixed now (some rootB) (some 1100000000000)).expiry = some 1100000000000 ∧
+    ¬ (OldF5.ntime (OldF5.noteNewOld now (some rootA) (some 997000000000))).pos ∧
+    ¬ (OldF5.ntime (OldF5.noteNewOld now (some rootB) (some 1100000000000))).pos ∧
+    ¬ (OldF5.ntime (OldF5.noteNewFixed now (some rootA) (some 997000000000))).pos ∧
+    ¬ (OldF5.ntime (OldF5.noteNewFixed now (some rootB) (some 1100000000000))).pos := by
+  decide
 
 /-! ### Completeness of delivery -/
 
@@ -284,21 +406,29 @@ theorem C08_stack_notified {s : State} (hr : Reachable s) {t : Tid} {pos : CPos}
 def C08_unaffected_full : Prop :=
   ∀ (s s' : State) (e : Event) (k : NoteId), Reachable s → step s e = .ok s' →
     (s.notes k).notified = false → (s'.notes k).notified = true →
-    ∃ a pos stk top, e.actor = some a ∧ s.pc a = .chd pos stk top ∧ Anc s top.n k
+    (∃ a pos stk top, e.actor = some a ∧ s.pc a = .chd pos stk top ∧ Anc s top.n k) ∨
+    (∃ a p dl, e.actor = some a ∧ s.pc a = .newP .st k p dl ∧ s.published k = false ∧
+      s.Notified p)
 
 /-- C08 (proved part): a flag is set only by a thread inside `notify (n)` (reached from
     `nsync_note_notify (n)` or from the expiry of `n`'s deadline), and only for a note `k` that is `n`
     itself or had `n` on its path to the root when it was created.  Ancestors and siblings of `n`
-    (which do not have `n` on their creation path, `Lt` being a strict order) are never touched. -/
+    (which do not have `n` on their creation path, `Lt` being a strict order) are never touched.
+    Since the repair of F5 there is a second way: `nsync_note_new` sets the flag of the note `k` it
+    is creating — not yet returned to anybody (`published k = false`) — when it finds the intended
+    parent `p` notified (note.c/7); no existing note is touched by that either. -/
 theorem C08_unaffected_partial {s s' : State} {e : Event} {k : NoteId} (hr : Reachable s)
     (hs : step s e = .ok s') (h0 : (s.notes k).notified = false)
     (h1 : (s'.notes k).notified = true) :
-    ∃ a f rest top, e.actor = some a ∧ s.pc a = .chd .st (f :: rest) top ∧ f.note = k ∧
-      (k = top.n ∨ Lt s top.n k) := by
-  obtain ⟨_, hN, hS, _, hL, _⟩ := hr.inv6
-  rcases step_flag_new hs k h1 with h | ⟨a, f, rest, top, ha, hpc, hf⟩
+    (∃ a f rest top, e.actor = some a ∧ s.pc a = .chd .st (f :: rest) top ∧ f.note = k ∧
+      (k = top.n ∨ Lt s top.n k)) ∨
+    (∃ a p dl, e.actor = some a ∧ s.pc a = .newP .st k p dl ∧ s.published k = false ∧
+      s.Notified p) := by
+  obtain ⟨hA, hN, hS, _, hL, _⟩ := hr.inv6
+  rcases step_flag_new hs k h1 with h | ⟨a, f, rest, top, ha, hpc, hf⟩ | ⟨a, p, dl, ha, hpc⟩
   · rw [h0] at h; cases h
-  · refine ⟨a, f, rest, top, ha, hpc, hf, ?_⟩
+  · left
+    refine ⟨a, f, rest, top, ha, hpc, hf, ?_⟩
     have hc := hL.claim a
     rw [hpc] at hc
     cases rest with
@@ -319,20 +449,27 @@ theorem C08_unaffected_partial {s s' : State} {e : Event} {k : NoteId} (hr : Rea
           (List.mem_append_left _ (List.mem_map_of_mem (List.mem_of_getLast? hl)))
         rw [hln, hf] at this
         exact this
+  · right
+    have hc := hN.claim a
+    rw [hpc] at hc
+    exact ⟨a, p, dl, ha, hpc, (hA.creating a k (by rw [hpc]; simp)).2, (hc.2 rfl).1⟩
 
 /-- … hence never for a note strictly above `n` (an ancestor, now or ever). -/
 theorem C08_ancestors_unaffected {s s' : State} {e : Event} {k : NoteId} (hr : Reachable s)
     (hs : step s e = .ok s') (h0 : (s.notes k).notified = false)
     (h1 : (s'.notes k).notified = true) {a : Tid} {pos : CPos} {stk : List Frame} {top : Top}
     (ha : e.actor = some a) (hpc : s.pc a = .chd pos stk top) : ¬ Lt s k top.n := by
-  obtain ⟨a', f, rest, top', ha', hpc', _, hk⟩ := C08_unaffected_partial hr hs h0 h1
-  rw [ha] at ha'; cases ha'
-  rw [hpc] at hpc'; cases hpc'
   have hL := hr.inv6.2.2.2.2.1
-  intro hlt
-  rcases hk with hk | hk
-  · subst hk; exact hlt.irrefl
-  · exact Lt.asymm hL hlt hk
+  rcases C08_unaffected_partial hr hs h0 h1 with ⟨a', f, rest, top', ha', hpc', _, hk⟩ |
+    ⟨a', p, dl, ha', hpc', _⟩
+  · rw [ha] at ha'; cases ha'
+    rw [hpc] at hpc'; cases hpc'
+    intro hlt
+    rcases hk with hk | hk
+    · subst hk; exact hlt.irrefl
+    · exact Lt.asymm hL hlt hk
+  · rw [ha] at ha'; cases ha'
+    rw [hpc] at hpc'; cases hpc'
 
 /-! ### Non-vacuity -/
 
